@@ -21,7 +21,7 @@ def run(chk):
     walks = cl.random_walks(chk.seed, 2000 if thorough else 100, 40)
     out = cl.run_scenarios(binary, sc + walks, wd, "c07")
     outs, ifl, pfl = cl.validate(chk, out, wd, "c07", shard=1500 if thorough else 400)
-    cl.report(chk, outs, ifl, pfl, {"P07"}, WHAT)
+    cl.report(chk, outs, ifl, pfl, {"P07", "abnormal"}, WHAT)
     chk.cov["traces_validated_against_impl"] = len(outs)
     chk.cov["evaluations"] = len(outs)
     chk.cov["distinct_nontrivial"] = len(sc)
